@@ -31,6 +31,40 @@ type c10Case struct {
 	Mode      string   `json:"mode"`
 	Elected   bool     `json:"after_election"`
 	WantAdmit bool     `json:"reference_admits"`
+	reason    string   // why the implementation refused it (its own log text)
+}
+
+// c10Why names the single rule a case is meant to break (only for cases that differ from an
+// admissible one in exactly one respect), so that the evidence can show what actually refused it.
+func c10Why(c *c10Case) string {
+	var broken []string
+	if c.Signer2 != "" {
+		broken = append(broken, "second-message-signer")
+	}
+	if c.FeePayer != "" {
+		broken = append(broken, "separate-fee-payer")
+	}
+	if c.Memo != "" {
+		broken = append(broken, "memo")
+	}
+	if c.Sig != "valid" {
+		broken = append(broken, "signature:"+c.Sig)
+	}
+	if c.Signer == "account-less" {
+		broken = append(broken, "account-less-signer")
+	}
+	if c.Timeout == "h-2" || (c.Timeout == "h-1" && c.Mode != "check") {
+		broken = append(broken, "expired-timeout")
+	}
+	if len(broken) != 1 || len(c.Msgs) != 1 {
+		return ""
+	}
+	u := c.Msgs[0]
+	ok := (u == ethBlockURL && c.Signer == "consensus-proposer" && c.Timeout == "h" && (c.Mode == "process" || c.Mode == "finalize")) || (isRelayerNS(u) && c.Signer == "relayer-proposer")
+	if !ok {
+		return ""
+	}
+	return c.Mode + ":" + broken[0]
 }
 
 const ethBlockURL = "/goat.goat.v1.MsgNewEthBlock"
@@ -203,6 +237,9 @@ func c10Eval(w *enga.World, c *c10Case) (admitted bool, foreignEffect string) {
 	switch c.Mode {
 	case "check":
 		res, err := w.N.CheckTx(tx)
+		if err == nil {
+			c.reason = res.Log
+		}
 		return err == nil && res.Code == 0, ""
 	case "prepare":
 		must(w.N.InsertMempool(tx))
@@ -225,6 +262,7 @@ func c10Eval(w *enga.World, c *c10Case) (admitted bool, foreignEffect string) {
 			txs = [][]byte{eth, tx}
 		}
 		pr, err := w.N.Process(blk, txs)
+		c.reason = w.N.LoggedErrors()
 		return err == nil && pr.Status == abci.ResponseProcessProposal_ACCEPT, ""
 	case "finalize":
 		txs := [][]byte{tx}
@@ -244,6 +282,7 @@ func c10Eval(w *enga.World, c *c10Case) (admitted bool, foreignEffect string) {
 			return false, ""
 		}
 		must(w.N.Commit(blk, txs, fr))
+		c.reason = fr.TxResults[len(fr.TxResults)-1].Log
 		_, seqAfter, _ := w.N.Account(w.N.Ctx(), key.Addr())
 		want := seqBefore + 1
 		if c.Signer == "consensus-proposer" && !hasEth {
@@ -386,6 +425,9 @@ func runC10(r *mc.Run) {
 		admitted, eff := c10Eval(w, c)
 		r.Transitions.Add(1)
 		r.Validated.Add(1)
+		if why := c10Why(c); why != "" && !admitted && c.reason != "" {
+			r.Reason(why, c.reason)
+		}
 		if c.Mode == "check" && !admitted {
 			reusable = true
 		}
